@@ -26,3 +26,33 @@ PROPS["C15"] = {
 		"out": ["y direction of the tile->geo->tile round trip (needs the true atan/exp/ln/tan pair)", "get_geo_center", "Debug output"],
 	},
 }
+
+# ------------------------------------------------------------------------------------------ C20
+c20 = "types::limited_cache::kani_harness"
+LC = ["LimitedCache::add", "LimitedCache::get", "LimitedCache::get_or_set", "LimitedCache::cleanup"]
+
+
+def _c20(kind, ln, cap, tier="quick", timeout=None):
+	what = {"add": "one add(k,v)", "get": "one get(k)", "gos": "one get_or_set(k, loader Ok/Err symbolic)", "survive": "get(k) hit, then add(k') with k' != k"}[kind]
+	return H(f"c20_{kind}_{ln}_{cap}", CORE, c20, tier=tier, funcs=LC, timeout=timeout,
+		bounds=f"inductive step from an ARBITRARY cache state with exactly {ln} entries and capacity {cap} satisfying the representation invariant; keys u8, values (key, u16 nonce), stamps u64: all symbolic",
+		sample=f"{what} on LimitedCache{{cache: {ln} symbolic entries, max_length: {cap}, last_index: symbolic}}", stubs=["HashMap -> association-list model (vmap.rs)"])
+
+
+PROPS["C20"] = {
+	"harnesses": [
+		H("c20_base", CORE, c20, funcs=["LimitedCache::with_maximum_size"], bounds="byte budget: any usize >= element size", sample="maximum_size symbolic", stubs=["HashMap -> association-list model (vmap.rs)"]),
+		H("c20_base_too_small", CORE, c20, funcs=["LimitedCache::with_maximum_size"], bounds="byte budget < element size: must panic (kani::should_panic)", sample="maximum_size symbolic", expect_cover=False, should_panic=True),
+		_c20("add", 0, 1), _c20("add", 1, 1), _c20("add", 1, 2), _c20("add", 2, 2), _c20("add", 2, 3), _c20("add", 3, 3),
+		_c20("get", 1, 1), _c20("get", 2, 3), _c20("get", 3, 3),
+		_c20("gos", 0, 1), _c20("gos", 1, 1), _c20("gos", 2, 2), _c20("gos", 2, 3), _c20("gos", 3, 3),
+		_c20("survive", 2, 2), _c20("survive", 2, 3), _c20("survive", 3, 3),
+		_c20("add", 3, 4, "thorough"), _c20("add", 4, 4, "thorough"), _c20("get", 4, 4, "thorough"), _c20("gos", 4, 4, "thorough"), _c20("survive", 4, 4, "thorough"),
+	],
+	"meta": {
+		"assumptions": ["std::collections::HashMap replaced by an association-list model with the same API (hashing and Hash impls are outside the claim)",
+			"representation invariant I: len <= max_length, keys distinct, every value carries its key, stamps <= last_index, non-zero stamps pairwise distinct; "
+			"shown inductive by the step harnesses and established by with_maximum_size (c20_base), hence holds after histories of any length"],
+		"out": ["capacities above 4 (the code has no capacity-dependent branch besides len >= max_length and len/2)", "hashing", "byte budget -> capacity for other K,V", "last_index within 8 of u64::MAX"],
+	},
+}
